@@ -232,7 +232,7 @@ func verif_C19_limiter_step() {
 	L := nondetInt(1, 1<<31)
 	c := nondetInt(0, 1<<31)
 	assume(c <= L)
-	src := &verifSrc{data: oct, final: io.EOF}
+	src := &verifSrc{data: oct, final: io.EOF, finalWithData: nondetBool()}
 	r := &lineLimitReader{R: src, LineLimit: L, curLineLength: c}
 	var got []byte
 	var err error
